@@ -293,6 +293,7 @@ func (g *gen) run() {
 	fn := g.fn
 	g.w.curUnit = g.unit
 	ci := analyseCFG(fn)
+	g.ci = ci
 	g.numberLoops(ci)
 	g.numberCalls()
 	g.computeStable()
@@ -513,12 +514,20 @@ func (g *gen) loopEnv(h *ssa.BasicBlock, phiVals map[*ssa.Phi]T, st map[string]s
 			e.vars[n] = t
 		}
 	}
+	// variables of the enclosing loops (rangeindex<k>, rangeslice<k>, and their phis by name)
+	for n, t := range g.loopVars(h, h) {
+		e.vars[n] = t
+	}
 	if rs := g.rangeSlice(h); rs != nil {
 		if t, ok := g.vals[rs]; ok {
 			e.vars["rangeslice"] = t
+			e.vars[fmt.Sprintf("rangeslice%d", g.loopOrd[h])] = t
 		}
 	}
 	for phi, t := range phiVals {
+		if phi.Comment == "rangeindex" {
+			e.vars[fmt.Sprintf("rangeindex%d", g.loopOrd[h])] = t
+		}
 		name := phi.Comment
 		if name != "" {
 			e.vars[name] = t
@@ -1108,4 +1117,51 @@ func (lh *loopHead) addGoal(name, clause, goal string, pos token.Pos) {
 		}
 	}
 	lh.goals = append(lh.goals, &loopGoal{name: name, clause: clause, parts: []string{goal}, pos: pos})
+}
+
+// loopVars: names bound by the loops that enclose block b (excluding the loop headed by skip): the
+// header phis by their source names, the hidden range index as rangeindex / rangeindex<k> and the
+// ranged-over slice as rangeslice / rangeslice<k> (k = loop ordinal); inner loops shadow outer ones.
+func (g *gen) loopVars(b *ssa.BasicBlock, skip *ssa.BasicBlock) map[string]T {
+	out := map[string]T{}
+	if g.ci == nil {
+		return out
+	}
+	type hb struct {
+		h *ssa.BasicBlock
+		n int
+	}
+	var hs []hb
+	for h, body := range g.ci.body {
+		if h != skip && body[b] {
+			hs = append(hs, hb{h, len(body)})
+		}
+	}
+	sort.Slice(hs, func(i, j int) bool { return hs[i].n > hs[j].n }) // outermost first
+	for _, x := range hs {
+		k := g.loopOrd[x.h]
+		for _, in := range x.h.Instrs {
+			phi, ok := in.(*ssa.Phi)
+			if !ok {
+				break
+			}
+			t, ok := g.vals[phi]
+			if !ok {
+				continue
+			}
+			if phi.Comment != "" {
+				out[phi.Comment] = t
+			}
+			if phi.Comment == "rangeindex" {
+				out[fmt.Sprintf("rangeindex%d", k)] = t
+			}
+		}
+		if rs := g.rangeSlice(x.h); rs != nil {
+			if t, ok := g.vals[rs]; ok {
+				out["rangeslice"] = t
+				out[fmt.Sprintf("rangeslice%d", k)] = t
+			}
+		}
+	}
+	return out
 }
